@@ -690,6 +690,13 @@ pub fn encode_with_fixed_block_size<T: Source>(
         stream.add_frame(frame);
     }
 
+    // The last block may be shorter than `block_size`, but STREAMINFO's minimum
+    // block size excludes it (and a value below 16 makes the stream invalid).
+    stream
+        .stream_info_mut()
+        .set_block_sizes(block_size, block_size)
+        .unwrap();
+
     let (_, context) = framebuf_and_context;
     stream
         .stream_info_mut()
